@@ -2607,6 +2607,11 @@ class AggregateBase(UnitsManaged, Saveable, OpenSystem):
             for i in range(start, dim):
                 ens[i-start] = numpy.real(HH[i,i] - subtract[i-start])
 
+            # the lowest energy is taken as the origin: the populations
+            # do not depend on it and the Boltzmann factors cannot all 
+            # underflow at low temperatures
+            ens = ens - numpy.amin(ens)
+
             ne = numpy.exp(-ens/kBT)
             sne = numpy.sum(ne)
             rho0_diag = ne/sne
